@@ -29,11 +29,16 @@ func (t tree) line() string {
 	return sb.String()
 }
 
+// flowTok: a valid flow, short (v) or long (w) file
+func flowTok(r *prng.R) string {
+	return prng.Pick(r, []string{"v", "v", "w"}) + fmt.Sprint(r.Range(1, 3))
+}
+
 func genTree(r *prng.R) tree {
 	t := tree{"dm": "m0"}
 	for _, n := range []string{"a", "b", "c"} {
 		if r.Chance(55) {
-			t["f/"+n+".yaml"] = fmt.Sprintf("v%d", r.Range(1, 3))
+			t["f/"+n+".yaml"] = flowTok(r)
 		}
 	}
 	if r.Chance(35) {
@@ -93,7 +98,7 @@ func genPayload(r *prng.R, t tree, shape int) []item {
 	prng.Shuffle(r, flows)
 	for _, n := range flows {
 		if pick(50) {
-			items = append(items, item{"f/" + n + ".yaml", fmt.Sprintf("v%d", r.Range(1, 3))})
+			items = append(items, item{"f/" + n + ".yaml", flowTok(r)})
 		}
 	}
 	qs := []string{"qa", "qb"}
@@ -195,6 +200,8 @@ func faultPositions(r *prng.R, ep string, t tree, items []item) []string {
 	}
 	for _, it := range items {
 		fs = append(fs, "save:"+it.logical)
+		// the file cannot be unlinked, create/write work: content must still be exactly the new bytes
+		fs = append(fs, "sunlink:"+it.logical)
 	}
 	// a store failing inside Restore(): the files it writes back are the payload's changed files
 	// (and, for /apply_flows, everything the clean-up removed)
@@ -216,6 +223,7 @@ func faultPositions(r *prng.R, ep string, t tree, items []item) []string {
 	sort.Strings(keys)
 	for _, k := range keys {
 		fs = append(fs, "rstore:"+k+" rpos="+prng.Pick(r, []string{"first", "last"}))
+		fs = append(fs, "runlink:"+k) // the same, inside Restore(): not a failed restore
 	}
 	return fs
 }
@@ -360,7 +368,7 @@ func genRace(r *prng.R, t tree, kind int) []string {
 func gen(r *prng.R, f proto.Flags, emit func(proto.Case)) {
 	payloads := 90
 	if f.Tier == "thorough" {
-		payloads = 650
+		payloads = 450
 	}
 	payloads *= f.Budget
 	id := 0
